@@ -588,6 +588,11 @@ ccoPrExpr(CCode cco, int oPrec)
 		break;
 	case CCOK_Prefix:
 		cc += ccoPuts  (str);
+		/* "- -x", "+ +x", "& &x" must not become the tokens "--", "++", "&&". */
+		a = ccoArgv(cco)[0];
+		if (a && ccoIsExpr(a) && ccoInfo(ccoTag(a)).kind == CCOK_Prefix &&
+		    ccoInfo(ccoTag(a)).str[0] == str[strlen(str) - 1])
+			cc += ccoPuts(" ");
 		cc += ccoPrExpr(ccoArgv(cco)[0], iPrec);
 		break;
 	case CCOK_Postfix:
